@@ -33,14 +33,14 @@ MOD = 'interface.uart'
 
 # ------------------------------------------------------------------------------------------------ guard normalisation
 def _zero_test(e):
-    """(signal, value_of_'signal != 0'_when_e_is_true) for the usual spellings of a zero test, else None."""
+    """(signal, value_of_'signal != 0'_when_e_is_true, signal width) for the usual spellings of a zero test, else None."""
     if not isinstance(e, E):
         return None
     if e.op == 'sig' and (e.w or 0) != 1:
-        return e.canon(), True
+        return e.canon(), True, e.w
     if e.op == 'call' and e.args and e.args[0] in ('any', 'bool') and len(e.args) == 2 and \
             isinstance(e.args[1], E) and e.args[1].op == 'sig':
-        return e.args[1].canon(), True
+        return e.args[1].canon(), True, e.args[1].w
     if len(e.args) != 2 or not all(isinstance(a, E) for a in e.args):
         return None
     a, b = e.args
@@ -48,7 +48,7 @@ def _zero_test(e):
         if a.op == 'const':
             a, b = b, a
         if a.op == 'sig' and b.is_const(0):
-            return a.canon(), False
+            return a.canon(), False, a.w
     if e.op in ('>', '<', '>=', '<='):
         op = e.op
         if a.op == 'const':                  # K op x  ->  x op' K
@@ -56,17 +56,24 @@ def _zero_test(e):
             op = {'>': '<', '<': '>', '>=': '<=', '<=': '>='}[op]
         if a.op == 'sig' and b.op == 'const':
             if (op, b.val) in (('>', 0), ('>=', 1)):
-                return a.canon(), True
+                return a.canon(), True, a.w
             if (op, b.val) in (('<', 1), ('<=', 0)):
-                return a.canon(), False
+                return a.canon(), False, a.w
     return None
 
 
+def _nzkey(ir, name):
+    """Key of the test `name != 0`: a 1-bit signal is its own non-zero test (the extractor writes `S == 0` of a
+    1-bit S as `~S`), a wider one gets the key ('nz', S)."""
+    si = ir.signals.get(name)
+    return name if (si is not None and si.w == 1) else ('nz', name)
+
+
 def _nlit(l):
-    """Normalised literal (key, value): zero tests on a signal S become (('nz', S), bool)."""
+    """Normalised literal (key, value): zero tests on a signal S become (('nz', S), bool); S itself when S is 1 bit."""
     zt = _zero_test(l.e)
     if zt is not None and l.kind == 'cond':
-        return ('nz', zt[0]), (zt[1] == l.pos)
+        return (zt[0] if zt[2] == 1 else ('nz', zt[0])), (zt[1] == l.pos)
     a, p = atom_of(l)
     return a, p
 
@@ -211,11 +218,11 @@ def serializer(ctx, C, tag, ir, fsm, reg, tick, unit, nunits, want_load, src, rd
                    reg, W, ', '.join(vs.describe(f) for f in exp), a.rhs.canon(), ', '.join(vs.describe(f) for f in got)))
     # -- the unit counter
     cands = sorted({a.lhs.canon() for a in ir.assigns if a.state == (fsm.id, send) and a.lhs.op == 'sig' and _is_dec(a)
-                    and a.lhs.canon() != reg and a.domain == fsm.domain} - ({tick[0][1]} if isinstance(tick[0], tuple) else set()))
+                    and a.lhs.canon() != reg and a.domain == fsm.domain} - {tick[0][1] if isinstance(tick[0], tuple) else tick[0]})
     ctx.need(len(cands) == 1, 'exactly one down-counter of remaining units next to %s (found %s)' % (reg, cands))
     cnt = cands[0]
-    g_shift = {tick[0]: tick[1], ('nz', cnt): True}
-    g_last = {tick[0]: tick[1], ('nz', cnt): False}
+    g_shift = {tick[0]: tick[1], _nzkey(ir, cnt): True}
+    g_last = {tick[0]: tick[1], _nzkey(ir, cnt): False}
     for i, a in enumerate(shifts):
         ctx.ob('C49.shift-guard', K(what + '-shifter.shift#%d.guard' % i), norm(a) == g_shift, a.loc,
                '%s must shift on every unit boundary while units remain, i.e. exactly under (%s); found (%s)' % (
@@ -364,11 +371,11 @@ def check_uart(ctx, d):
     decs = [a for a in ir.assigns if a.state == (fsm.id, send_tx) and a.lhs.op == 'sig' and _is_dec(a) and a.lhs.canon() != reg]
     names = sorted({a.lhs.canon() for a in decs})
     ctx.need(len(names) == 2, 'two down-counters (baud, bits) in the shifting state (found %s)' % names)
-    free = [n for n in names if any(set(norm(a)) <= {('nz', n)} for a in decs if a.lhs.canon() == n)]
+    free = [n for n in names if any(set(norm(a)) <= {_nzkey(ir, n)} for a in decs if a.lhs.canon() == n)]
     if len(free) != 1:
         free = sorted(names, key=lambda n: min(len(a.guard) for a in decs if a.lhs.canon() == n))[:1]
     baud = free[0]
-    tick = (('nz', baud), False)
+    tick = (_nzkey(ir, baud), False)
     send, bits, sites, g_shift, g_last = serializer(ctx, C, tag, ir, fsm, reg, tick, 1, nbits, frame, PAY, RDY, VLD, 'bit')
     ctx.need(send == send_tx, 'tx shows the register in the state that shifts it')
 
@@ -378,8 +385,8 @@ def check_uart(ctx, d):
     here = sorted([a for a in bd if a.state == (fsm.id, send)], key=lambda a: a.order)
     bdec = [a for a in here if _is_dec(a)]
     reload_ = [a for a in here if not _is_dec(a)]
-    t0 = {('nz', baud): False}
-    ok_dec = bdec and all(_sub(norm(a), {('nz', baud): True}) for a in bdec)
+    t0 = {_nzkey(ir, baud): False}
+    ok_dec = bdec and all(_sub(norm(a), {_nzkey(ir, baud): True}) for a in bdec)
     ctx.ob('C49.baud-step', K('baud.decrement'), ok_dec and all(a.domain == fsm.domain for a in bd), (bdec or here)[0].loc,
            'the baud counter %s must count down by one in every cycle of the shifting state: %s' % (baud, [q.fmt(a) for a in bdec]))
     at0 = [a for a in reload_ if norm(a) == t0]
